@@ -328,6 +328,28 @@ class Canon2(ast.NodeTransformer):
         return node
 
 
+class Canon3(ast.NodeTransformer):
+    """N14: a call whose callee is chosen by a conditional expression is the conditional of the two calls:
+    (A if c else B)(args)  ->  A(args) if c else B(args); as an expression statement it becomes if c: A(args) else: B(args),
+    so that each arm is an ordinary call the other passes (helper expansion, call resolution) can read."""
+
+    def visit_Call(self, node):
+        self.generic_visit(node)
+        if isinstance(node.func, ast.IfExp) and all(isinstance(x, (ast.Name, ast.Attribute)) for x in (node.func.body, node.func.orelse)):
+            import copy
+            a = ast.copy_location(ast.Call(func=node.func.body, args=node.args, keywords=node.keywords), node)
+            b = ast.copy_location(ast.Call(func=node.func.orelse, args=copy.deepcopy(node.args), keywords=copy.deepcopy(node.keywords)), node)
+            return ast.copy_location(ast.IfExp(test=node.func.test, body=a, orelse=b), node)
+        return node
+
+    def visit_Expr(self, node):
+        self.generic_visit(node)
+        if isinstance(node.value, ast.IfExp) and isinstance(node.value.body, ast.Call) and isinstance(node.value.orelse, ast.Call):
+            v = node.value
+            return ast.copy_location(ast.If(test=v.test, body=[ast.copy_location(ast.Expr(value=v.body), node)], orelse=[ast.copy_location(ast.Expr(value=v.orelse), node)]), node)
+        return node
+
+
 def canonicalise(tree, second_stage=True):
     """second_stage (N9/N10/N12) is for plain Python modules; the Cython kernels keep their statement structure for the table rules."""
     tree = ast.fix_missing_locations(Canon().visit(tree))
@@ -335,4 +357,5 @@ def canonicalise(tree, second_stage=True):
         tree = ast.fix_missing_locations(Canon2().visit(tree))
         tree = ast.fix_missing_locations(Canon().visit(tree))        # polarity of the new conditional expressions
         tree = ast.fix_missing_locations(InlineTemps().visit(tree))
+        tree = ast.fix_missing_locations(Canon3().visit(tree))
     return tree
